@@ -50,8 +50,22 @@ POOL.update(
     }
 )
 IDS3 = ["F0", "F1", "F2", "F3", "B0", "B1"]
+# fourth pool: the same reaction held as instances of different format classes (what merging two databases gives);
+# the reaction is the same whatever file format it was read from
+POOL.update(
+    {
+        "Y0": (["C", "CH"], ["C2", "H"], (10.0, 300.0), "GAS_TWOBODY"),
+        "YK": (["C", "CH"], ["C2", "H"], (10.0, 300.0), "KIDA_MA"),
+        "YU": (["CH", "C"], ["H", "C2"], (10.0, 300.0), "UMIST_TWOBODY"),
+        "YC": (["C", "CH"], ["C2", "H"], (10.0, 300.0), "UCLCHEM_MA"),
+        "ZK": (["C2", "H"], ["C", "CH"], (10.0, 300.0), "KIDA_MA"),
+        "ZU": (["C2", "H"], ["C", "CH"], (10.0, 300.0), "UMIST_TWOBODY"),
+    }
+)
+FORMAT_OF = {"YK": "kida", "YU": "umist", "YC": "uclchem", "ZK": "kida", "ZU": "umist"}
+IDS4 = ["Y0", "YK", "YU", "YC", "ZK", "ZU"]
 IDS2 = ["E0", "E1", "E2", "O0", "O1", "S0", "S1", "A0", "A3", "A7", "A8"]
-IDS = [k for k in POOL if k not in ("E0", "E1", "E2", "O0", "O1", "S0", "S1", "A7", "A8", "F0", "F1", "F2", "F3")]
+IDS = [k for k in POOL if k not in ("E0", "E1", "E2", "O0", "O1", "S0", "S1", "A7", "A8", "F0", "F1", "F2", "F3", "Y0", "YK", "YU", "YC", "ZK", "ZU")]
 MODES = [None, "brief", "minimal", "short"]
 
 
@@ -64,7 +78,10 @@ def related(a, b, mode):
         return same_rp
     if mode == "short":
         return same_rp and wa == wb and ta == tb
-    return same_rp and wa == wb and (ta == tb or "UNKNOWN" in (ta, tb))
+    # default mode compares the type itself: the per-format enumerations share their codes (KIDA_MA = UMIST_TWOBODY =
+    # UCLCHEM_MA = GAS_TWOBODY = 100); short mode compares the printed type NAME, which differs between the classes
+    code = lambda t: 100 if t in ("KIDA_MA", "UMIST_TWOBODY", "UCLCHEM_MA", "GAS_TWOBODY") else t
+    return same_rp and wa == wb and (code(ta) == code(tb) or "UNKNOWN" in (ta, tb))
 
 
 def transitive(ids, mode):
@@ -98,7 +115,7 @@ def instances():
 
         _INST = {}
         for rid, (r, p, (lo, hi), t) in POOL.items():
-            _INST[rid] = (r, p, lo, hi, ReactionType[t])
+            _INST[rid] = (r, p, lo, hi, ReactionType[t] if rid not in FORMAT_OF else None)
     return _INST
 
 
@@ -106,6 +123,19 @@ def mk(rid):
     from naunet.reactions.reaction import Reaction
 
     r, p, lo, hi, t = instances()[rid]
+    if rid in FORMAT_OF:
+        from ..ref import formats as F
+        from naunet.reactions.kidareaction import KIDAReaction
+        from naunet.reactions.umistreaction import UMISTReaction
+        from naunet.reactions.uclchemreaction import UCLCHEMReaction
+
+        fmt = FORMAT_OF[rid]
+        ar = F.AReaction(list(r), list(p), 1.0, 0.0, 0.0, lo, hi, 7, {"kida": 3, "umist": "NN", "uclchem": None}[fmt], None)
+        if fmt == "kida":
+            ar = F.AReaction(list(r), list(p), 1.0, 0.0, 0.0, int(lo), int(hi), 7, 3, None)
+        x = {"kida": KIDAReaction, "umist": UMISTReaction, "uclchem": UCLCHEMReaction}[fmt]({"kida": F.enc_kida, "umist": F.enc_umist, "uclchem": F.enc_uclchem}[fmt](ar))
+        x._vid = rid
+        return x
     x = Reaction(list(r), list(p), lo, hi, 1.0, 0.0, 0.0, t)
     x._vid = rid
     return x
@@ -199,6 +229,7 @@ def run(ctx):
     lists = [l for n in range(1, nmax + 1) for l in itertools.product(IDS, repeat=n)]
     lists += [l for n in range(2, 5) for l in itertools.product(IDS2, repeat=n)]
     lists += [l for n in range(2, 5) for l in itertools.product(IDS3, repeat=n)]
+    lists += [l for n in range(2, 4) for l in itertools.product(IDS4, repeat=n)]
     chunks = [lists[i : i + 300] for i in range(0, len(lists), 300)]
     tot = judged = skipped = 0
     for n, j, s, viols in ctx.pmap(run_chunk, chunks):
@@ -219,7 +250,7 @@ def run(ctx):
         "evaluations": judged + skipped + nedit,
         "searches_after_in_place_edit": nedit,
         "distinct_nontrivial": judged,
-        "rule": f"all lists of length <= {nmax} over a pool of 11 reactions (two bases, a multiplicity-only pair; permuted reactants / products, windows differing in both bounds / only the upper / only the lower bound, other type, unknown type) a second pool of electron/label permutations and a third of reactions with an empty side x modes default/brief/minimal/short; O(n^2) pairwise reference; removal round trip and second call",
+        "rule": f"all lists of length <= {nmax} over a pool of 11 reactions (two bases, a multiplicity-only pair; permuted reactants / products, windows differing in both bounds / only the upper / only the lower bound, other type, unknown type) a second pool of electron/label permutations a third of reactions with an empty side and a fourth holding one reaction as instances of the plain, KIDA, UMIST and UCLCHEM classes x modes default/brief/minimal/short; O(n^2) pairwise reference; removal round trip and second call",
         "samples": [list(l) for l in lists[:: max(1, len(lists) // 6)][:6]],
         "lists": len(lists),
         "judged_list_mode_pairs": judged,
